@@ -502,9 +502,16 @@ Definition apply_registered (registered : list (pyval * pyval)) (use_config : py
   | _ => use_config
   end.
 
-Definition init_config (orc : Z -> pyval -> outcome pyval) (s : schema) (registered : list (pyval * pyval))
+(* apply_registered_defaults walks the class chain; chain = the registered dictionaries, most basic class first *)
+Definition merge_registered (chain : list (list (pyval * pyval))) : list (pyval * pyval) :=
+  fold_left dict_update chain [].
+
+Definition use_config (chain : list (list (pyval * pyval))) (config : option pyval) (kwargs : list (pyval * pyval))
+  : pyval := apply_registered (merge_registered chain) (select_config config kwargs).
+
+Definition init_config (orc : Z -> pyval -> outcome pyval) (s : schema) (chain : list (list (pyval * pyval)))
            (config : option pyval) (kwargs : list (pyval * pyval)) : outcome pyval :=
-  validate_config orc s (apply_registered registered (select_config config kwargs)).
+  validate_config orc s (use_config chain config kwargs).
 
 (* ------------------------------------------------------------------------------------------------ *)
 (* vocabulary used by the regenerated Gen/Schemas.v                                                  *)
